@@ -76,4 +76,25 @@ fn numeric_text<S: Src, const L: usize>(s: &mut S) {
 harness!(numeric_text_4, unwind = 7, |s| { numeric_text::<S, 4>(s) });
 harness!(numeric_text_6, unwind = 9, |s| { numeric_text::<S, 6>(s) });
 
-registry!("u5", is_operator_binary_all, partial_index, numeric_text_4, numeric_text_6);
+/// native-only sampled probe: strings of up to 12 characters over a palette that includes multi-byte
+/// characters; same contract as `numeric_text_*` (the returned slice must be the maximal digit/dot prefix)
+pub fn numeric_text_utf8<S: Src>(s: &mut S) {
+    const PAL: [&str; 14] = ["0", "1", "9", ".", "a", "e", "E", "-", " ", "é", "€", "😀", "π", "٣"];
+    let n = s.choice(13) as usize;
+    let mut text = String::new();
+    for _ in 0..n { text.push_str(PAL[s.choice(14) as usize]); }
+    let r = is_numeric_text(&text);
+    let bytes = text.as_bytes();
+    let mut k = 0; let mut dots = 0; let mut digits = 0;
+    while k < bytes.len() && (bytes[k].is_ascii_digit() || bytes[k] == b'.') {
+        if bytes[k] == b'.' { dots += 1; } else { digits += 1; }
+        k += 1;
+    }
+    if digits >= 1 && dots <= 1 {
+        assert!(matches!(r, Some(t) if t.len() == k && text.starts_with(t)), "C13 number literal: digits with at most one inner, leading or trailing dot are read as one literal (the maximal digit/dot prefix)");
+    } else {
+        assert!(r.is_none(), "C13 number literal: no digit, or more than one dot, is not a number");
+    }
+}
+
+registry!("u5", numeric_text_utf8, is_operator_binary_all, partial_index, numeric_text_4, numeric_text_6);
